@@ -1,8 +1,8 @@
 (* Extraction of the executable glue model and of the C17 outcome checker.
    Only ExtrOcamlBasic is used: nat, Z, positive stay the extracted inductive types. *)
 From Coq Require Import List ZArith Extraction ExtrOcamlBasic.
-From LMPyGlue Require Import PyGlueModel PyGlueLazy.
+From LMPyGlue Require Import PyGlueModel PyGlueLazy PyGlueCheck.
 
 Extraction Language OCaml.
 Extraction "pyglue_model.ml" run_call run_history check_C17 same_outcome symbols
-  glue_calculate glue_scan run_call_lazy dict_to_alphabet_array f64_to_f32_bits f32_to_f64_bits.
+  glue_calculate glue_scan run_call_lazy dict_to_alphabet_array f64_to_f32_bits f32_to_f64_bits check_hits check_items.
